@@ -28,7 +28,9 @@ JOBS = [
          bounded='page size 256; <=1 PageArray holding 1..3 pages, hosted at the start/end of its newest/oldest page; unwind 5'),
     dict(id='C06.release.oversize.bounded', harness='h_release_oversize', defines=['VF_BOUNDED_RELEASE 1'], unwind=5, timeout=1500, object_bits=9,
          bounded='<=1 OversizePageArray holding 1..3 blocks, hosted in the block that created it; block sizes 24/40, alignments 8/32; unwind 5'),
-    dict(id='C06.release.tasks.bounded', harness='h_release_tasks', defines=['VF_BOUNDED_RELEASE 1'], unwind=17, timeout=1500, object_bits=9,
+    dict(id='C06.release.tasks.bounded', harness='h_release_tasks', defines=['VF_BOUNDED_RELEASE 1'], unwind=17, timeout=1500, object_bits=9, mem_gb=40,
+         bounded='<=1 DestroyTaskArray filled to any level; unwind 17'),
+    dict(id='C06.release.tasks.bounded2', harness='h_release_tasks', defines=['VF_BOUNDED_RELEASE 1', 'B_MAXARR 2'], unwind=17, timeout=3000, object_bits=9, mem_gb=40, tier='thorough',
          bounded='<=2 DestroyTaskArrays (newest filled to any level, older full); unwind 17'),
     dict(id='C06.release.pages.bounded2', harness='h_release_pages', defines=['VF_BOUNDED_RELEASE 1', 'B_MAXARR 2'], unwind=17, timeout=3000, object_bits=9, mem_gb=40, tier='thorough',
          bounded='as C06.release.pages.bounded with <=2 chained PageArrays'),
